@@ -21,9 +21,9 @@ pub fn params(prop: &str, tier: &str) -> Params {
     let thorough = common::tier_is_thorough(tier);
     let (q, t, qcap, tcap) = match prop {
         "C01" => (4, 6, 90, 900),
-        "C05" => (3, 5, 40, 900),
+        "C05" => (4, 5, 40, 900),
         "C20" => (3, 4, 40, 1200),
-        "C10" => (3, 5, 40, 1200),
+        "C10" => (4, 5, 40, 1200),
         "C06" => (3, 5, 40, 1200),
         "C07" => (4, 6, 40, 900),
         "C08" => (4, 5, 60, 1500),
